@@ -70,14 +70,14 @@ class SolverStub:
     __mul__ = dot
 
 
-def load_code(enc=None, cy_transform=None, py_transform=None):
+def load_code(enc=None, cy_transform=None, py_transform=None, int_model=False):
     cy = load_pyx('pyiga/relaxation_cy.pyx', encoded=enc, transform=cy_transform)
     pkg = types.ModuleType('cyx_pkg_c11'); pkg.__path__ = []
     mod = types.ModuleType('cyx_pkg_c11.relaxation_cy'); mod.__dict__.update({k: v for k, v in cy.items() if not k.startswith('__')})
     pkg.relaxation_cy = mod
     sys.modules['cyx_pkg_c11'] = pkg; sys.modules['cyx_pkg_c11.relaxation_cy'] = mod
     norm = NormStub()
-    snp = SymNP(); snp.linalg = norm
+    snp = SymNP(int_dtype_model=int_model); snp.linalg = norm
     ns = {'np': snp, 'scipy': _NS(sparse=sparse_facade(), linalg=norm), '__package__': 'cyx_pkg_c11', '__name__': 'cyx_pkg_c11.solvers',
           'make_solver': lambda B, symmetric=False, spd=False: SolverStub(B), 'print': lambda *a, **k: None}
     srcload.load_defs('pyiga/solvers.py', ['gauss_seidel', 'OperatorSmoother', 'GaussSeidelSmoother', 'SequentialSmoother', 'twogrid', 'local_mg_step',
@@ -273,6 +273,10 @@ def twogrid_harness(ns, nf, nc, u0_kind):
         nrm = ns['_norm']; del nrm.log[:]
         A = sx.symarray('A', (nf, nf)); P = interp_P(nf, nc); f = sx.symarray('f', (nf,))
         if u0_kind == 'array': u0 = sx.symarray('u0', (nf,))
+        elif u0_kind == 'integer array':
+            # an integer-typed starting vector (e.g. np.zeros(n, dtype=int) or a 0/1 indicator): numpy semantics of integer arrays are modelled
+            from symx.symnp import IntArr
+            u0 = sx.symarray('u0', (nf,), sort='int').view(IntArr)
         elif u0_kind == 'floats': u0 = np.array([0.5] * nf)
         else: u0 = None
         sm = []
@@ -421,15 +425,16 @@ w = json.load(sys.stdin)
 from pyiga import solvers, bspline, assemble
 kv = bspline.make_knots(2, 0.0, 1.0, 8); kvc = bspline.make_knots(2, 0.0, 1.0, 4)
 A = (assemble.stiffness(kv) + assemble.mass(kv)).tocsr(); P = bspline.prolongation(kvc, kv)
-f = np.ones(A.shape[0]); u0 = np.full(A.shape[0], 0.5)
+f = np.ones(A.shape[0])
 bad = []
-try:
-    import io, contextlib
-    with contextlib.redirect_stdout(io.StringIO()):
-        u = solvers.twogrid(A, f, P, solvers.GaussSeidelSmoother(), u0=u0, tol=1e-10)
-    if not np.allclose(A @ u, f, atol=1e-6): bad.append('did not converge')
-except Exception as e:
-    bad.append('exception %s: %s' % (type(e).__name__, e))
+import io, contextlib
+for nm, u0 in (('float array', np.full(A.shape[0], 0.5)), ('integer array', np.arange(A.shape[0]) % 2), ('list of ints', [1] * A.shape[0])):
+    try:
+        with contextlib.redirect_stdout(io.StringIO()):
+            u = solvers.twogrid(A, f, P, solvers.GaussSeidelSmoother(), u0=u0, tol=1e-10)
+        if not np.allclose(A @ u, f, atol=1e-6): bad.append('u0 = %s: did not converge' % nm)
+    except Exception as e:
+        bad.append('u0 = %s: exception %s: %s' % (nm, type(e).__name__, str(e)[:100]))
 print(json.dumps({'reproduced': bool(bad), 'bad': bad}))
 '''
 
@@ -481,8 +486,9 @@ def main():
             for cex in st.cex:
                 r = realbuild.run_real(REPLAY_ITER, {'x0': wx, 'active': wa}, only=[])
                 run.report('iterative_solve', '%s: %s; real run: %s' % (cex['name'], jsonable(sx.model_dict(cex['model'])), r['bad']), {'kind': 'driver', 'x0': wx, 'active': wa}, r['reproduced'])
-        for kind in ('none', 'array'):
-            st = sx.explore(twogrid_harness(ns, 3, 2, kind), timeout_ms=30000, max_paths=2000)
+        cy_i, ns_i = load_code(int_model=True)
+        for kind in ('none', 'array', 'integer array'):
+            st = sx.explore(twogrid_harness(ns_i if kind == 'integer array' else ns, 3, 2, kind), timeout_ms=30000, max_paths=2000)
             run.absorb(st, 'twogrid', bound={'nf': 3, 'nc': 2, 'u0': kind}, sample={'obligation': 'twogrid accepts the starting vector', 'u0': kind})
             for cex in st.cex:
                 r = realbuild.run_real(REPLAY_TWOGRID, {}, only=[])
